@@ -13,7 +13,10 @@ END = '-----END PGP SIGNATURE-----'
 CLASSES = [BEGIN, SIGBEGIN, END, '-----BEGIN PGP MESSAGE-----', '', 'Hash: SHA256', 'DATA a 0',
            '- DATA b 1', '- ' + SIGBEGIN, 'junk line']
 EXTRA = [' ', BEGIN + ' ', '- ' + BEGIN, 'IGNORE x', '-----', '- - DATA c 2', 'iQEzBAEBCgAdFiEE', '\t', 'TIMESTAMP 2017-01-01T00:00:00Z',
-         '-DATA d 3', END + '\t', '=BR6/']
+         '-DATA d 3', END + '\t', '=BR6/',
+         # characters that str.splitlines() treats as line ends, but text files and OpenPGP do not
+         'NotDashEscaped: x\x1c\x1cIGNORE evil', 'Hash: SHA1\u2028\u2028DATA e 4', 'Comment: a\x0b\x0bDATA f 5', 'X: y\x85\x85IGNORE g',
+         'DATA h\x0c 6', 'Hash: z\x1d\x1e']
 
 
 def seq_text(seq, final_nl, eol='\n'):
